@@ -26,6 +26,7 @@ SkipBodies(w) ==
     [] w = WT32 -> {<<1, 2, 3, 4>>}
     [] w = WTLength -> {Item(n) : n \in {0, 1, 127, 128}}
     [] w = WTSlice -> {UV(0)} \cup {UV(1) \o Item(n) : n \in ItemLens} \cup {UV(2) \o Item(n) \o Item(m) : n \in ItemLens, m \in ItemLens}
+                      \cup {UV(n) \o Rep(n, 0) : n \in {127, 128, 129}}                 \* two-byte counts over one-byte entries
 Huge == {<<128, 128, 128, 128, 8>>, <<128, 128, 128, 128, 128, 32>>, <<128, 128, 128, 128, 128, 128, 128, 128, 128, 1>>,
          <<255, 255, 255, 255, 255, 255, 255, 255, 255, 1>>, <<255, 255, 255, 255, 255, 255, 255, 255, 255, 2>>,
          <<128, 128, 128, 128, 128, 128, 128, 128, 128, 128, 1>>, <<255>>, <<128, 0>>,
